@@ -6,7 +6,7 @@ Local Open Scope list_scope.
 
 (* every query of one process (psutil._pslinux.Process methods and the psutil.Process front ends over them) *)
 Definition backend_scripts : list prog :=
-  [ i_stat_based; i_status_based; i_cmdline; i_file FEnviron; i_file FIo; i_memory_info; i_parse_smaps;
+  [ i_stat_based; i_terminal; i_status_based; i_cmdline; i_file FEnviron; i_file FIo; i_memory_info; i_parse_smaps;
     i_memory_full_info; i_memory_maps; i_threads; i_open_files; i_num_fds;
     i_net_connections 0; i_net_connections 1; i_net_connections 2;
     i_sys FSysPrio; i_sys FSysIoprio; i_sys FSysAffinity; i_rlimit;
@@ -49,20 +49,13 @@ Qed.
 (* ---- the harness's concrete worlds satisfy the hypothesis (so the theorems are not vacuous) *)
 Definition y0 : layout :=
   {| y_self := "4242"; y_parent := "1";
-     y_fds := [("0", LOtherLink); ("3", LReg); ("4", LSock); ("5", LReg); ("6", LOtherLink)];
+     y_fds := [("0", LAbsOther); ("3", LReg); ("4", LSock); ("5", LReg); ("6", LOtherLink)];
      y_tasks := ["4242"; "4243"]; y_pids := ["1"; "77"; "4242"; "5001"; "5002"];
-     y_children := ["5001"; "5002"]; y_zombies := ["5002"]; y_race_fd := "5"; y_race_task := "4243" |}.
+     y_children := ["5001"; "5002"]; y_zombies := ["5002"]; y_race_fd := "5"; y_race_task := "4243";
+     y_del_fd := "3"; y_maps_del := ["lib.so (deleted)"]; y_devs := ["pts0"; "tty1"] |}.
 
 Ltac ifs := repeat match goal with |- context [if ?c then _ else _] => destruct c end.
-(* each base kind within its own (narrower) class of optional files ... *)
-Lemma base_ok_worlds : forall y v d ln gu,
-  base_ok opt_none (mk_world y 0 v d ln gu) /\ base_ok opt_exe (mk_world y 1 v d ln gu) /\
-  base_ok opt_links (mk_world y 2 v d ln gu) /\ base_ok opt_race (mk_world y 3 v d ln gu).
-Proof.
-  intros. repeat split; intros g [k x f] cur; unfold rwho; simpl;
-    destruct x; simpl; try exact I; ifs; destruct f, k; simpl; ifs; reflexivity.
-Qed.
-(* ... hence all of them within opt_links, the class of the theorems *)
+(* all four base kinds are within opt_links, the class of the theorems *)
 Lemma base_ok_worlds_links : forall y kind v d ln gu, (kind <= 3)%nat -> base_ok opt_links (mk_world y kind v d ln gu).
 Proof.
   intros y kind v d ln gu Hk.
@@ -77,7 +70,7 @@ Example cmdline_example :
 Proof.
   intro w. apply linux_methods_sound; auto.
   - apply base_ok_worlds_links. lia.
-  - unfold linux_scripts, consulting_scripts, backend_scripts. simpl. auto.
+  - unfold linux_scripts, consulting_scripts, backend_scripts. simpl. auto 10.
 Qed.
 
 (* ---- the defects that were repaired (commits 1c63e73, 4ee76b0, a4fac6f): the scripts of the code BEFORE
